@@ -11,7 +11,9 @@ import (
 	"log"
 	"log/slog"
 	"os"
+	"path/filepath"
 	"sync"
+	"sync/atomic"
 	"time"
 
 	filehandler "github.com/goblimey/go-ntrip/file_handler"
@@ -50,6 +52,11 @@ type faultCase struct {
 	UsedBeforeWithTolMs int `json:"config_used_before_with_tolerance_ms,omitempty"`
 	// the configuration has a system log (the handler writes a line per event to it)
 	WithLog bool `json:"system_log,omitempty"`
+	// the source is a real file that another process is still appending to, opened
+	// the way the applications open their input (a JSON configuration naming a list
+	// of files, Config.WaitAndConnectToInput): each Data step is appended after its
+	// DelayMs; the end-of-file results are the file system's own
+	Growing bool `json:"growing_file,omitempty"`
 	// unrelated settings of the same configuration: they must not matter
 	ReadTimeoutMs uint   `json:"read_timeout_ms,omitempty"`
 	SleepOpenMs   uint   `json:"sleep_after_failed_open_ms,omitempty"`
@@ -287,12 +294,40 @@ func runFaultScript(k faultCase) faultObs {
 		fh0.Handle(fixedStart, bufio.NewReader(&scriptReader{steps: []step{{Data: "d3"}, {Fault: "eof"}, {Fault: "other"}}}))
 		cfg.TimeoutOnEOFMilliSeconds, cfg.WaitTimeOnEOFMilliseconds = k.TimeoutMs, k.WaitMs
 	}
+	var source io.Reader = sr
+	var grown *countingReader
+	if k.Growing {
+		dir, err := os.MkdirTemp(".", "c13grow")
+		if err == nil {
+			defer os.RemoveAll(dir)
+			feed := filepath.Join(dir, "feed.rtcm")
+			os.WriteFile(feed, nil, 0644)
+			cfgText := fmt.Sprintf(`{"input": [%q, %q], "timeout_on_EOF_milliseconds": %d, "wait_time_on_EOF_millis": %d, "read_timeout_milliseconds": %d, "sleep_time_after_failed_open_milliseconds": 5}`,
+				filepath.Join(dir, "ttyACM0-not-there"), feed, k.TimeoutMs, k.WaitMs, k.ReadTimeoutMs)
+			cfgPath := filepath.Join(dir, "cfg.json")
+			os.WriteFile(cfgPath, []byte(cfgText), 0644)
+			if fc, e := jsonconfig.GetJSONConfigFromFile(cfgPath, log.New(io.Discard, "", 0)); e == nil {
+				cfg = fc
+				grown = &countingReader{r: cfg.WaitAndConnectToInput()}
+				source = grown
+				go func() {
+					for _, st := range steps {
+						sleepTicking(time.Duration(st.DelayMs) * time.Millisecond)
+						if f, e := os.OpenFile(feed, os.O_APPEND|os.O_WRONLY, 0644); e == nil {
+							f.Write(unhex(st.Data))
+							f.Close()
+						}
+					}
+				}()
+			}
+		}
+	}
 	ch := make(chan handler.Message, 4)
 	fh := filehandler.New(ch, cfg)
 	var obs faultObs
 	done := make(chan struct{})
 	go func() {
-		obs.err = fh.Handle(fixedStart, bufio.NewReader(sr))
+		obs.err = fh.Handle(fixedStart, bufio.NewReader(source))
 		close(done)
 	}()
 	collected := make(chan struct{})
@@ -309,6 +344,9 @@ func runFaultScript(k faultCase) faultObs {
 	sr.mu.Lock()
 	defer sr.mu.Unlock()
 	obs.supplied = sr.supplied
+	if grown != nil {
+		obs.supplied = int(atomic.LoadInt64(&grown.n))
+	}
 	obs.neverStop = sr.neverStop
 	obs.afterEnd = sr.afterEnd
 	// stall guard: the handler is excused for giving up early only if this process's
@@ -326,6 +364,19 @@ func runFaultScript(k faultCase) faultObs {
 		}
 	}
 	return obs
+}
+
+// countingReader counts the bytes that have been read through it.
+type countingReader struct {
+	r io.Reader
+	n int64
+}
+
+func (c *countingReader) Read(p []byte) (int, error) {
+	tick()
+	n, err := c.r.Read(p)
+	atomic.AddInt64(&c.n, int64(n))
+	return n, err
 }
 
 func allData(steps []step) []byte {
@@ -593,6 +644,27 @@ func monC13(c *child.Ctx, replay json.RawMessage) {
 			}
 			c.Count("scripts_with_many_empty_reads_after_an_interruption", 1)
 			add(faultCase{Steps: mk(pos, fl), TimeoutMs: tolMs, WaitMs: 1, Tolerant: true, Note: fmt.Sprintf("%d fault(s) after byte %d, then %d empty reads, then the data continues", len(fl)-countEmpty(fl), pos, countEmpty(fl))}, inside[pos])
+		}
+		// a real file that is still being written: the stream is appended in two to five
+		// pieces with pauses well inside the tolerance; the file system reports end of
+		// file in between, as often as the handler asks
+		if si%3 == 0 || c.Thorough() {
+			var st []step
+			at := 0
+			for np := r.Range(2, 5); np > 0 && at < len(data); np-- {
+				to := r.Range(at+1, len(data))
+				if np == 1 {
+					to = len(data)
+				}
+				st = append(st, step{Data: hexs(data[at:to]), DelayMs: r.Range(5, 180)})
+				at = to
+			}
+			if at < len(data) {
+				st = append(st, step{Data: hexs(data[at:]), DelayMs: r.Range(5, 180)})
+			}
+			c.Count("scripts_with_a_growing_file", 1)
+			add(faultCase{Steps: st, TimeoutMs: tolMs, WaitMs: []uint{1, 1, 50}[r.Intn(3)], ReadTimeoutMs: []uint{0, 0, 2000}[r.Intn(3)], Tolerant: true, Growing: true,
+				Note: fmt.Sprintf("a file opened through the configuration and still growing: %d appends with pauses of up to 180 ms, tolerance %d ms", len(st), tolMs)}, true)
 		}
 		// a Config object that has been used before with the other kind of tolerance
 		{
